@@ -194,6 +194,7 @@ def run_cases(ctx, cases, name="mod"):
     for c in cases:
         r = out[c["id"]]
         rc = enumgen.last_rc(r["runs"])
+        enumgen.check_infra(r["compile"])
         rel, gen = enumgen.generated_file(r["written"])
         im = {"exit": str(rc)}
         c["detail"] = {"stderr": r["runs"][-1]["stderr"][-400:], "compile": r["compile"], "generated": rel}
